@@ -456,4 +456,49 @@ ASSUMPTIONS = ["A1: floats are mathematical reals", "(G) tail integrals vanish w
                "non-negativity of the mass = d-increasing copula composed with monotone tail integrals (C11 + A6), not re-proved here",
                "equality with the integral of the joint density: d-dimensional fundamental theorem of calculus (A6)"]
 TRUSTED_BASE = ["z3 5.1 (LRA + uninterpreted functions)", "pyvc interpreter + numpy models"]
-BOUNDED = []
+class InverseTailBattery:
+    """bounded (native): "the inverse marginal tail integral inverts the tail integral" -- U_i(U_i^{-1}(v)) = v to 1e-9
+    (relative) for tail levels v inside the range the root search brackets, [U(500), U(1e-20)] on the positive side and
+    its mirror on the negative side: 12 levels per side spread geometrically over that range, margins HEM (finite
+    activity), VG and CGMY y = 0 (logarithmic tails: roots down to 1e-19), CGMY y = 0.5 and 1.1 (power tails).  Levels
+    beyond U(+-1e-20) are clipped to the end of the bracket by design and are not part of the clause."""
+    name = "bounded:inverse-tail-integral"
+    tier = "quick"
+
+    def run(self, tier, seed):
+        import warnings
+        from contracts import battery
+        from rpylib.model.levycopulamodel import LevyCopulaModel
+        from rpylib.distribution.levycopula import ClaytonCopula
+        from rpylib.model.utils import create_exponential_of_levy_model, ModelType
+        viol, ev, samples = {}, 0, []
+        ms = battery.models()
+        ms["cgmy_y0"] = create_exponential_of_levy_model(ModelType.CGMY)(spot=100.0, r=0.05, d=0.02, c=0.1, g=10.0, m=8.0, y=0.0)
+        with warnings.catch_warnings():
+            warnings.simplefilter("ignore")
+            for name, m in ms.items():
+                cm = LevyCopulaModel(models=[m, m], copula=ClaytonCopula(theta=0.7, eta=0.3))
+                for sgn in (1.0, -1.0):
+                    hi, lo = abs(cm.marginal_tail_integral(0, sgn * 1e-20)), abs(cm.marginal_tail_integral(0, sgn * 500.0))
+                    lo = max(lo, 1e-12 * hi, 1e-300)
+                    if not (np.isfinite(hi) and hi > lo):
+                        hi = abs(cm.marginal_tail_integral(0, sgn * 1e-8))
+                    for v in np.geomspace(lo * 1.5 + 1e-9, hi * 0.98, 12):
+                        ev += 1
+                        x = cm.inverse_tail_integral(0, sgn * v)
+                        back = cm.marginal_tail_integral(0, float(x))
+                        if len(samples) < 4:
+                            samples.append({"margin": name, "level": float(sgn * v), "inverse": float(x), "tail_integral_of_the_inverse": float(back)})
+                        if not abs(back - sgn * v) <= 1e-9 * max(1.0, abs(v)):
+                            viol.setdefault(name + str(sgn), {"obligation": f"{self.name}::tail-integral-of-the-inverse-is-the-level[{name}]", "bounded": self.name,
+                                                              "witness": {"margin": name, "level": float(sgn * v), "inverse": float(x), "tail_integral_of_the_inverse": float(back)}})
+        return {"name": self.name, "evaluations": ev, "distinct_nontrivial": ev, "violations": list(viol.values()), "samples": samples,
+                "bound": "6 margins x 2 signs x 12 levels spread geometrically over [U(500), U(1e-20)]"}
+
+    def replay(self, rec):
+        r = self.run("quick", 0)
+        hit = [v for v in r["violations"] if v["obligation"] == rec["obligation"]]
+        return (bool(hit), hit[0]["witness"] if hit else {})
+
+
+BOUNDED = [InverseTailBattery()]
